@@ -72,7 +72,8 @@ def run(tier):
                 c = rnd.choice([2, 5, 16, 64, 0])
                 cmds = ["wrap reset", "wrap guardfiles 1", "new 0 int", "new 1 int"]
                 if variant == "file":
-                    cmds += ["file 0 %s" % path, "asm 1 %s" % common.hx(text)]
+                    # one case in five goes through the deprecated alias assemble_file()
+                    cmds += ["%s 0 %s" % ("fileold" if fid % 5 == 0 else "file", path), "asm 1 %s" % common.hx(text)]
                 else:
                     cmds += ["filecnt 0 %d %s" % (c, path), "cnt 1 %d %s" % (c, common.hx(text))]
                 cmds += ["sumoff 0", "sumoff 1", "wrapreport"]
